@@ -5,6 +5,7 @@ undoes the change with `git -C /repo checkout -- .`.  Never commits anything in 
 import sys, os, json, shutil, subprocess, time
 
 ROOT = os.path.dirname(os.path.dirname(os.path.abspath(__file__)))
+REPO = os.environ.get("OAS_REPO", "/repo")     # a scratch clone can be used while /repo itself is busy
 
 
 def sh(cmd, cwd=None, timeout=3600, env=None):
@@ -21,14 +22,14 @@ def main():
     for a, b in (("SEED_patch.diff", "patch.diff"), ("SEED_demo.py", "demo.py"), ("SEED_meta.json", "meta.json")):
         if os.path.exists(os.path.join(src, a)):
             shutil.copy(os.path.join(src, a), os.path.join(dst, b))
-    rc, out = sh(["git", "-C", "/repo", "status", "--porcelain", "--untracked-files=no"])
+    rc, out = sh(["git", "-C", REPO, "status", "--porcelain", "--untracked-files=no"])
     if out.strip():
-        print("refusing: /repo has local modifications:\n" + out); return 2
+        print("refusing: %s has local modifications:\n" % REPO + out); return 2
     res = {"id": sid, "applied": False, "demo_on_changed": None, "demo_on_unchanged": None, "checks": {}}
-    env = dict(os.environ, PYTHONPATH="/repo", OPENMDAO_REPORTS="0")
+    env = dict(os.environ, PYTHONPATH=REPO, OPENMDAO_REPORTS="0")
     rc0, out0 = sh(["/venv/bin/python", os.path.join(dst, "demo.py")], cwd="/tmp", env=env)
     res["demo_on_unchanged"] = {"exit": rc0, "tail": out0[-600:]}
-    rc, out = sh(["git", "-C", "/repo", "apply", os.path.join(dst, "patch.diff")])
+    rc, out = sh(["git", "-C", REPO, "apply", os.path.join(dst, "patch.diff")])
     if rc != 0:
         res["apply_error"] = out[-800:]
         json.dump(res, open(os.path.join(dst, "result.json"), "w"), indent=1); print("patch does not apply:", out[-400:]); return 1
@@ -44,7 +45,7 @@ def main():
                 res["checks"]["%s/%s" % (c, tier)] = {"exit": rc, "wall_s": round(time.time() - t, 1), "lines": [l[:300] for l in lines]}
                 print(c, tier, "exit", rc, [l[:160] for l in lines if l.startswith("VIOLATION")])
     finally:
-        sh(["git", "-C", "/repo", "checkout", "--", "."])
+        sh(["git", "-C", REPO, "checkout", "--", "."])
         # the evidence / replay files written while the change was applied describe the changed tree: drop the replays
         shutil.rmtree(os.path.join(ROOT, "replays"), ignore_errors=True)
     res["caught_by"] = sorted(k for k, v in res["checks"].items() if v["exit"] != 0 and any(l.startswith("VIOLATION") for l in v["lines"]))
